@@ -170,6 +170,19 @@ impl Prop for C15 {
                 ensure!(!misc.contains_key("fraccion_renovable_demanda_acs_nrb"), "misc", "a number is stored for a non-computable case");
             }
         }
+        // "an error instead of a number": also when the result already carries the other entry
+        // (a result that is completed a second time, e.g. after being read from JSON)
+        let mut stale = ep2.clone();
+        if let Some(mm) = stale.misc.as_mut() {
+            mm.0.insert("error_acs".to_string(), "ERROR: antiguo".to_string());
+            mm.0.insert("fraccion_renovable_demanda_acs_nrb".to_string(), "0.123".to_string());
+        }
+        let ep3 = incorpora_demanda_renovable_acs_nrb(stale);
+        if let Some(m3) = &ep3.misc {
+            let (has_v, has_e) = (m3.contains_key("fraccion_renovable_demanda_acs_nrb"), m3.contains_key("error_acs"));
+            ensure!(has_v != has_e, "misc", "after completing a result that carried stale entries: value present = {}, error present = {}", has_v, has_e);
+            ensure!(has_v == got.is_ok(), "misc", "stale entry kept: value present = {} but the indicator is {}", has_v, if got.is_ok() { "computable" } else { "not computable" });
+        }
         // invariances
         let mut variants: Vec<(&str, Building, f32, f32)> = vec![];
         let cyc = |v: &Vec<u32>| -> Vec<f32> { (0..n).map(|t| cents_f32(v[t % v.len()] as i64)).collect() };
